@@ -130,8 +130,7 @@ func ParseField(v reflect.Value, bytes []byte, params fieldParameters) error {
 		v.Set(reflect.ValueOf(Enumerated(val)))
 		return nil
 	case NullType:
-		val := true
-		v.Set(reflect.ValueOf(val))
+		v.SetBool(true)
 		return nil
 	}
 	switch val := v; val.Kind() {
